@@ -365,3 +365,9 @@ PLAN["C01"]["thorough"]["tests"][0]["shards"] = 9
 PLAN["C01"]["thorough"]["tests"].append({"run": "TestC01Sparse", "shards": 2, "checks": 600, "timeout": 840})
 PLAN["C01"]["rule"] += ("; TestC01Sparse: volumes of 1-8 GiB (sparse files, sparse model) with writes around the GiB, 2^31 and 2^32 byte marks and at the very end, and 'comb' writes that give one file "
                         "thousands of separate extents (more than one FIEMAP call returns), snapshots, reclamation on/off, reload, close/open with and without preload: every block ever written and its neighbours read back")
+
+PLAN["C06"]["needs_jiva"] = True
+PLAN["C06"]["quick"]["wall"] = 150
+PLAN["C06"]["quick"]["tests"].append({"run": "TestC06Cleaner", "shards": 6, "checks": 1, "timeout": 110, "shrink": "1s", "env": {"VERIF_NOSHRINK": 1}})
+PLAN["C06"]["thorough"]["tests"].append({"run": "TestC06Cleaner", "shards": 4, "checks": 10, "timeout": 860, "shrink": "1s", "env": {"VERIF_NOSHRINK": 1}})
+PLAN["C06"]["rule"] += "; TestC06Cleaner: the product's cleaner loop (see C11) with and without working sync agents - every retained user snapshot keeps its image"
